@@ -335,13 +335,13 @@ pub fn run_c13(ctx: &Ctx, index: u64, cov: &mut Cov) -> Option<Violation> {
 // ======================================================================= C16
 
 #[cfg(feature = "deser")]
-pub struct SerdeHook {
-    pub shadows: Vec<(Arena<Plain>, &'static str)>,
+pub struct SerdeHook<P: Payload> {
+    pub shadows: Vec<(Arena<P>, &'static str)>,
 }
 
 #[cfg(feature = "deser")]
-impl Hook<Plain> for SerdeHook {
-    fn after_step(&mut self, _ctx: &Ctx, st: &mut State<Plain>, info: &StepInfo<Plain>, _heavy: bool, rng: &mut Rng, cov: &mut Cov) -> Vec<Finding> {
+impl<P: Payload + serde::Serialize + serde::de::DeserializeOwned> Hook<P> for SerdeHook<P> {
+    fn after_step(&mut self, _ctx: &Ctx, st: &mut State<P>, info: &StepInfo<P>, _heavy: bool, rng: &mut Rng, cov: &mut Cov) -> Vec<Finding> {
         let mut out = Vec::new();
         let f = |sig: &str, d: String| Finding::new(&["C16"], format!("serde/{}", sig), d);
         // the copies made earlier follow the same calls
@@ -362,7 +362,7 @@ impl Hook<Plain> for SerdeHook {
         }
         if self.shadows.len() < 4 && rng.chance(1, 10) {
             for fmt in ["json", "positional"] {
-                let r = guarded(|| -> Result<Arena<Plain>, String> {
+                let r = guarded(|| -> Result<Arena<P>, String> {
                     if fmt == "json" {
                         let s = serde_json::to_string(&st.arena).map_err(|e| format!("serialize: {}", e))?;
                         serde_json::from_str(&s).map_err(|e| format!("deserialize: {} in {}", e, s))
@@ -393,7 +393,7 @@ impl Hook<Plain> for SerdeHook {
                             return Some(format!("is_removed of id of node #{} differs on the copy", h));
                         }
                         if st.model.is_live(h) {
-                            if State::<Plain>::actual_links(&b, id) != State::<Plain>::actual_links(&st.arena, id) || b[id].get() != st.arena[id].get() {
+                            if State::<P>::actual_links(&b, id) != State::<P>::actual_links(&st.arena, id) || b[id].get() != st.arena[id].get() {
                                 return Some(format!("links or payload of node #{} differ on the copy", h));
                             }
                         }
